@@ -148,7 +148,8 @@ def run(ctx):
         if changed:
             glued.append(lexer.join(toks, g2, tr))
     stmts += glued
-    stmts += ["select a-(b) from t", "select a-\nb from t", "select a-'x' from t", "select a from t where a-(select 1)>0", "select (a)-b from t", "select a*-b from t", "select a-/* c */b from t"]
+    stmts += ["select '''quoted''' from t", "select '''' || '''' from t", "select * from t where a = '''x''' and b = ''''", "insert into t (a) values ('''a'''), ('''''')", "update t set a = '''' || b || ''''",
+              "select a-(b) from t", "select a-\nb from t", "select a-'x' from t", "select a from t where a-(select 1)>0", "select (a)-b from t", "select a*-b from t", "select a-/* c */b from t"]
     disagreements, nneutral, prem_bad = [], 0, []
     for si, sql in enumerate(stmts):
         if not neutral(sql):
